@@ -15,6 +15,11 @@ Correlated-k mode (the statement quantifies over both opacity modes): spec/Emiss
       configs + expected counterexample (slant factor applied outside the k-sum), exported vectors with
       NON-degenerate coefficients over visible surfaces replayed through pickle k-tables into
       EmissionModel / DirectImageModel, and random k-table atmospheres in binding B.
+Binding C (spec/EmissionCalls.tla): TLC-generated walks over the public entry points of ONE long-lived model with three
+      opacity sources (model / partial_model / model_contrib / model_full_contrib / bare path_integral: several path
+      integrals per initialisation of the star); every path integral compared with the exact documented integral of its
+      sub-composition over the stellar blackbody, every array the integrals share (the star's stored spectrum, profiles,
+      opacity arrays handed in, quadrature) re-read after every call; expected counterexamples: a shared array rescaled in place.
 History independence (spec/Functional.tla, harness/history.py): long-lived Emission / DirectImage models
       whose spectral window (equally long windows passed to model(wngrid=..)), star temperature, planet
       radius, temperature parameter and k-table set change between evaluations equal freshly built ones.
@@ -733,12 +738,17 @@ def run(ctx):
                       vectors='3 (4) layers, rows with distinct depths incl. saturated columns, 6..27 temperature profiles, 5 quadratures, eclipse + direct; '
                               'k-table mode: 2-3 layers, 2-3 points with different coefficients, visible and opaque surfaces',
                       traces='random atmospheres 2..30 layers, 2..5 wavenumbers, ngauss 1..8, depths 0..60 ln2 per layer; random k-table atmospheres',
+                      calls='every walk of 2 (quick) / 3 (thorough) public calls over {model, partial_model, model_contrib, model_full_contrib, '
+                            'path_integral} on one model with 3 opacity sources (2 molecules of one contribution + a grey contribution), 2-3 layers, '
+                            '3-4 source sets (transparent, zero, saturating on its own), eclipse + direct; one such walk on every random atmosphere',
                       history='TLC-generated set/eval walks (depth 9, 3 settings x 3 values) on long-lived Emission / DirectImage models')
     ctx.assumptions = ['Planck table: plain-Python CODATA-2018 evaluation in the harness (compared with the repository kernel as a separate clause)',
                        'per-layer cross-sections are scaled with the model\'s own deltaz and densityProfile (layer geometry is C11)',
                        'k-table files: PickleKTable layout written by the harness; pressure grid = layer pressures, values constant in T',
                        'history: every model owns the opacity / k-table objects it has loaded (installed in the cache singletons '
                        'through their public API for its own evaluations)',
+                       'call walks: a bare path_integral(grid) is only issued after model() / partial_model() / path_integral() '
+                       '(the state model() documents as prepared); the walks of one configuration are replayed one after the other on one object',
                        'TLC + CommunityModules Json/IOUtils; exported term lists evaluated with Python Fractions']
     ctx.check_spec('exhaustive', 'MC_Emission', 'MC_Emission_%s.cfg' % ctx.tier, deque=True,
                    need_actions=('Surface', 'Layer', 'Integrate', 'Normalise'))
@@ -785,9 +795,21 @@ def run(ctx):
 def replay(ctx, violations):
     """Vectors are replayed one by one; trace cases are regenerated from (seed, model index); histories are re-run."""
     done_trace = done_ktrace = done_hist = False
+    done_calls = set()
     for v in violations:
         vec = v['vector'] or {}
-        if vec.get('history'):
+        if vec.get('calls_walk'):
+            # the walks of one (model class, temperature profile, source set) are replayed on one object, as in run()
+            cfg = 'MC_EmissionCalls_thorough3.cfg' if len(vec['tp']) == 3 else \
+                  ('MC_EmissionCalls_thorough.cfg' if len(vec['calls']) == 3 else 'MC_EmissionCalls_quick.cfg')
+            key = (cfg, vec['kind'], tuple(vec['tp']), vec['sid'])
+            if key not in done_calls:
+                done_calls.add(key)
+                ratios = []
+                run_calls(ctx, cfg, 'replay', ratios, only=(vec['kind'], list(vec['tp']), vec['sid']))
+                for r, cls, vv in ratios:
+                    ctx.verdict('direct_image_proportional', math.isfinite(r) and r > 0, cls=cls, detail='ratio %r' % r, vector=vv)
+        elif vec.get('history'):
             if not done_hist:
                 run_histories(ctx, 8)
                 done_hist = True
